@@ -36,6 +36,7 @@ pub fn alg_by_name(name: &str) -> Algorithm {
 }
 
 pub fn run_case(ctx: &mut Ctx, case: &Value) {
+    crate::real::set_current(case);
     let mut tree = Node::from_wire(&case["tree"]);
     let marks = tree.marks();
     let order: Vec<usize> = case["order"].as_array().cloned().unwrap_or_default().iter().map(|v| v.as_u64().unwrap_or(0) as usize).collect();
